@@ -18,6 +18,12 @@ P = {
  "C04": (True, "model_checking", "cost modelled twice in TLA+ (operational countdown vs declarative table sum) and checked equal by TLC; limit exactness (total / total-1) as a TLC invariant; reported costs compared with the machine in trace validation incl. frontier re-runs",
          "TLC checks countdown = table sum, accumulator consistency and exactness of the limit over all menus incl. all 256 two-byte opcodes and both fork modes; the implementation's reported costs are validated against the machine on every event and accepted bundles are re-run at limit = total and total-1",
          "cost-table literals in the spec are the consensus rule; byte/interned and CLVM execution cost composition is covered with the generator pipeline", "3 C04"),
+ "C03": (True, "model_checking", "TLA+ per-assertion arithmetic semantics (TimeLocks.tla) proved equivalent by TLC to the parse-time fold of the Conditions machine composed with a transcription of check_time_locks over a boundary lattice; bundles x chain states replayed through parse_spends + check_time_locks and trace-validated against the per-assertion oracle",
+         "TLC proves Equiv and ImpossibleSound for all multisets of boundary assertions (incl. ephemeral second spend) over the chain lattice; the implementation's verdicts for TLC-generated and random bundles in boundary chain states are validated by TLC against the per-assertion oracle (the fold is not used on that path)",
+         "consistent chain states below the type maxima; non-lock rules delegated to the Conditions machine; legacy wrapping mode not judged", "3 C03"),
+ "C06": (True, "model_checking", "relational TLA+ driver specs over the Conditions machine (strict subset implication over all strictness subsets; invariance under every order reachable by adjacent swaps) model-checked by TLC; each visited pair replayed on the implementation and the relation evaluated by TLC on the two implementation results",
+         "TLC checks StrictImplies and PermEq on the machine over interaction-heavy menus visiting all orders; every visited (input, permutation/strict subset) and seeded random bundles are run pairwise through parse_spends and TLC trace validation evaluates the relation between the two implementation results",
+         "compared: everything but listing order and the positional ELIGIBLE_FOR_FF bit; fingerprint not computed on this path", "3 C06"),
 }
 ORDER = ["C%02d" % i for i in range(1, 21)]
 PENDING_REASON = "check not built yet in this round (construction order DESIGN section 8); no claim is made"
